@@ -856,7 +856,7 @@ func gen(r *rand.Rand, tier string) []string {
 	nfut := 6
 	if thorough {
 		nfut = 240
-		ne, nw, nn, nc = 800, 1800, 1200, 120
+		ne, nw, nn, nc = 740, 1650, 1100, 120
 		nfar, nlong, nbulk = 400, 60, 12
 		for _, g := range []string{"true,none", "none,false", "false,true,none", "false,false,none"} {
 			out = append(out, fmt.Sprintf("mode=proc given=%s lat=800 times=5 pools=%d", g, strings.Count(g, ",")+1),
